@@ -12,13 +12,13 @@ class C07(Prop):
     pid = "C07"
     prop_file = "Props/C07.v"
     module = "Props.C07"
-    gen_deps = ["Table", "ParserFn", "WinconFn"]
+    gen_deps = ["Table", "ParserFn", "WinconFn", "Utf8parseFn"]
     harness = ("h-core", "hcore")
     nontrivial_rule = ("cases: exhaustively all single SGR sequences of up to 3 attribute groups over a 22-element representative set (both spellings), each followed "
                        "by text and preceded by text; seeded UTF-8 texts interleaved with grammar SGR sequences (<=32 values, leading zeros, empty params, unknown codes), "
                        "other CSI/OSC/ESC/DCS sequences and chunkings; out-of-grammar streams compared implementation vs model only. "
                        "non-trivial = distinct case whose result has at least one run with a non-default style")
-    trusted = ["third-party utf8parse automaton (transcribed, tied)"]
+    trusted = ["third-party utf8parse automaton: translated from the registry source of the version Cargo.lock pins and proved equal to Model/Utf8parse.v (Generated/Utf8parseFn.v, Proofs/Utf8parseGen.v; theorems under C01-C04, C20); also tied by the correspondence runs"]
     assumptions = ["SGR sequences are drawn from the grammar G of DESIGN.md C07 (components <= 255, complete extended-colour forms, underline changes only when no "
                    "other underline kind is set); outside G only implementation = model is checked"]
 
